@@ -23,6 +23,8 @@ structure TablesCanon5 (T : Tables) : Prop where
   nameStart_not_space : ∀ b : UInt8, b < 128 → charIsNameStart T b.toNat = true →
     byteIsSpace T b = false
   nameStart_not_delim : ∀ b : UInt8, b ∈ [33, 47, 62, 63] → charIsNameStart T b.toNat = false
+  /-- white space is ASCII and not a name character (`<?xmlé …?>` is a PI, not a declaration) -/
+  space_not_name : ∀ b : UInt8, byteIsSpace T b = true → b < 128 ∧ charIsName T b.toNat = false
 
 /-! ### Characters of a byte string -/
 
@@ -682,6 +684,45 @@ theorem not_xmlDecl5 (hC4 : TablesCanon4 T) (hC5 : TablesCanon5 T) (t : Bytes) (
     rw [hC4.stops_not_nameC 32 (by simp)] at this
     cases this
 
+/-- `<?` target … is not the start of an XML declaration (`<?xml` + white space) either -/
+theorem not_xmlDecl5W (hC5 : TablesCanon5 T) (t : Bytes) (hn : NameP T t)
+    (hne : t ≠ litXml) (c : UInt8) (hc : c ∈ ([32, 63] : List UInt8)) (rest : Bytes) (p : Nat) :
+    Stream.startsWithXmlDecl T ⟨p, 60 :: 63 :: (t ++ c :: rest)⟩ = false := by
+  have hc' : c ≠ 120 ∧ c ≠ 109 ∧ c ≠ 108 := by
+    simp only [List.mem_cons, List.not_mem_nil, or_false] at hc
+    rcases hc with rfl | rfl <;> decide
+  rw [Bool.eq_false_iff]
+  intro h
+  simp only [Stream.startsWithXmlDecl, Bool.and_eq_true] at h
+  obtain ⟨h, h6⟩ := h
+  match t, hn, hne with
+  | [], _, _ =>
+    simp [Stream.startsWith, Lit.xmlDeclOpen, List.isPrefixOf] at h
+    exact hc'.1 h.1.symm
+  | [b1], _, _ =>
+    simp [Stream.startsWith, Lit.xmlDeclOpen, List.isPrefixOf] at h
+    exact hc'.2.1 h.2.1.symm
+  | [b1, b2], _, _ =>
+    simp [Stream.startsWith, Lit.xmlDeclOpen, List.isPrefixOf] at h
+    exact hc'.2.2 h.2.2.symm
+  | [b1, b2, b3], _, hne =>
+    simp [Stream.startsWith, Lit.xmlDeclOpen, List.isPrefixOf] at h
+    obtain ⟨rfl, rfl, rfl⟩ := h
+    exact hne rfl
+  | b1 :: b2 :: b3 :: b4 :: r, hn, _ =>
+    simp [Stream.startsWith, Lit.xmlDeclOpen, List.isPrefixOf] at h
+    obtain ⟨rfl, rfl, rfl⟩ := h
+    have h6 : byteIsSpace T b4 = true := by simpa using h6
+    obtain ⟨h4lt, h4n⟩ := hC5.space_not_name b4 h6
+    obtain ⟨cs, hcs, hall⟩ := nameP_all T hC5 hn
+    obtain ⟨cs1, rfl, h1⟩ := chars_ascii_head hcs (by decide)
+    obtain ⟨cs2, rfl, h2⟩ := chars_ascii_head h1 (by decide)
+    obtain ⟨cs3, rfl, h3⟩ := chars_ascii_head h2 (by decide)
+    obtain ⟨cs4, rfl, h4⟩ := chars_ascii_head h3 h4lt
+    have := (hall b4.toNat (by simp)).1
+    rw [h4n] at this
+    cases this
+
 /-- a PI value of the class -/
 def PiValP (v : Bytes) : Prop :=
   (∃ cs, Chars v cs ∧ ∀ c ∈ cs, charIsXmlChar T c = true) ∧ containsSub v Lit.piEnd = false ∧
@@ -1276,6 +1317,24 @@ theorem misc_head5 (T : Tables) (hC4 : TablesCanon4 T) (hC5 : TablesCanon5 T) {k
         exact not_xmlDecl5 T hC4 hC5 t ht hne 32 (by simp) _
     · simp [renderY, Lit.bom, List.isPrefixOf]
 
+/-- a Misc item does not look like an XML declaration (`<?xml` + white space) -/
+theorem misc_head5W (T : Tables) (hC5 : TablesCanon5 T) {k : YNode}
+    (h : miscOk5 T k = true) (Z : Bytes) (p : Nat) :
+    Stream.startsWithXmlDecl T ⟨p, renderY k ++ Z⟩ = false := by
+  rcases miscOk5_cases h with ⟨c, rfl, _⟩ | ⟨t, v, rfl, hp⟩
+  · simp [renderY, Stream.startsWithXmlDecl, Stream.startsWith, Lit.xmlDeclOpen, List.isPrefixOf]
+  · obtain ⟨ht, hne, _⟩ := piOk5_parts T hp
+    cases v with
+    | nil =>
+      have e : renderY (.pi t []) ++ Z = 60 :: 63 :: (t ++ 63 :: 62 :: Z) := by simp [renderY]
+      rw [e]
+      exact not_xmlDecl5W T hC5 t ht hne 63 (by simp) _ p
+    | cons b v' =>
+      have e : renderY (.pi t (b :: v')) ++ Z = 60 :: 63 :: (t ++ 32 :: ((b :: v') ++ 63 :: 62 :: Z)) := by
+        simp [renderY]
+      rw [e]
+      exact not_xmlDecl5W T hC5 t ht hne 32 (by simp) _ p
+
 section
 variable (T : Tables) (txt : Bytes)
 
@@ -1338,22 +1397,22 @@ theorem prolog_run5 (hC : TablesCanon T) (hC4 : TablesCanon4 T) (hC5 : TablesCan
     prologFrom T txt ⟨0, bomBytes y ++ (declBytes y ++ (renderMisc y.ws items ++ rest))⟩ =
       ret (miscToks y.ws ((bomBytes y).length + (declBytes y).length) items)
         ⟨(bomBytes y).length + (declBytes y).length + (renderMisc y.ws items).length, rest⟩ := by
-  have hZ : Lit.xmlDecl.isPrefixOf (renderMisc y.ws items ++ rest) = false ∧
+  have hZ : Stream.startsWithXmlDecl T ⟨(bomBytes y).length, renderMisc y.ws items ++ rest⟩ = false ∧
       Lit.bom.isPrefixOf (renderMisc y.ws items ++ rest) = false := by
     cases items with
     | nil =>
-      exact ⟨noPi_noDecl _ hr.nopi, hr.nobom⟩
+      exact ⟨noPi_noDeclW T _ hr.nopi _, hr.nobom⟩
     | cons k r =>
       simp only [List.all_cons, Bool.and_eq_true] at hit
       simp only [renderMisc, List.append_assoc]
-      exact misc_head5 T hC4 hC5 hit.1 _
+      exact ⟨misc_head5W T hC5 hit.1 _ _, (misc_head5 T hC4 hC5 hit.1 _).2⟩
   have hb : Lit.bom.isPrefixOf (declBytes y ++ (renderMisc y.ws items ++ rest)) = false := by
     unfold declBytes
     cases y.decl with
     | none => exact hZ.2
     | some enc => simp [litDeclOpen, Lit.bom, List.isPrefixOf]
   have hA := bom_step y _ hb
-  obtain ⟨q, w, hw, hq, hB⟩ := decl_step T txt hC hC4 y hws _ hZ.1 (bomBytes y).length
+  obtain ⟨q, w, hw, hq, hB⟩ := decl_step T txt hC hC4 y hws _ (bomBytes y).length hZ.1
   have hM := parseMisc_run5 T txt hC hC4 hC5 y.ws hws rest hr items hit
     ((w ++ (renderMisc y.ws items ++ rest)).length + 1) q w hw
     (by have := misc_len_le5 T y.ws items hit; simp only [List.length_append]; omega)
